@@ -42,7 +42,12 @@ func driveMux(c *hx.Ctx) error {
 	maxp := maxPayload(c.Repo)
 	var scns []scenario
 	var streams []string
+	var bufs []scenario
 	for _, sc := range corpus(c, "C10") {
+		if sc.B != nil {
+			bufs = append(bufs, sc)
+			continue
+		}
 		scns = append(scns, sc)
 		if sc.X.ByteLevel {
 			streams = append(streams, "mux_bytes")
@@ -180,6 +185,15 @@ func driveMux(c *hx.Ctx) error {
 		}
 	}
 
+	// --- the caller's buffer: len < frame <= cap, len = frame, len > frame, cap < frame
+	for _, b := range genReadBuf(c) {
+		bufs = append(bufs, scenario{B: b})
+	}
+	bufShard := c.NewShard("mux_readbuf", muxImports, "readbuf_case", "corr_readbuf", "holds_readbuf", 200)
+	for i, rr := range runScenarios(c, "buf", bufs, 4) {
+		emitReadBuf(c, i, bufs[i].B, rr, bufShard)
+	}
+
 	szShard := c.NewShard("mux_sizes", muxImports, "size_case", "corr_sizes", "holds_sizes", 400)
 	byShard := c.NewShard("mux_bytes", muxImports, "bytes_case", "corr_bytes", "holds_bytes", 40)
 	for i, sc := range scns {
@@ -188,6 +202,7 @@ func driveMux(c *hx.Ctx) error {
 	skippedCheck(c)
 	c.Stats.Rule = "mux_bytes: 1-5 connection ids (incl. 1, 2 and the highest uint32), 1-4 concurrent writer goroutines per side each issuing 1-8 Writes of 0..600 bytes to random ids, both directions at once, queue lengths 1,2,3,8,256 with readers that keep up (credit flow control), net.Pipe and unix socketpair alternating; the recorded trunk bytes, the serialisation found by parsing them and every Read result are compared byte for byte inside Coq. " +
 		"mux_sizes: the same with payloads at the chunk boundaries 0,1,max-1,max,max+1,2max-1,2max,2max+1,3max-1,3max and random sizes up to 3*max next to medium traffic; compared in Coq at the level of frame headers (size-level model), content on SHA-256 in the driver. " +
+		"mux_readbuf: one connection, 1-7 frames of 0..600 bytes queued, then one Read per frame with a buffer whose length and capacity are chosen relative to the frame (len < frame <= cap, len = frame, len > frame, len <= cap < frame, len = frame-1 with cap = frame, random); the returned count, error class and buf[:min(n,len)] are compared in Coq with Model.Mux.read_buf_step and judged by holds_readbuf (n <= len(buf) and the whole frame, or ENOMEM and the frame does not fit); non-trivial when some buffer is shorter than its frame. " +
 		"A case is non-trivial when at least two Writes share the trunk. A trunk that does not parse into whole Writes, a Read or Write error, a missing byte or a time-out is a failing input."
 	return nil
 }
